@@ -4,15 +4,7 @@ sys.path.insert(0,'/verif')
 from simrex import seams
 seams.configure_env(); seams.install()
 from simrex import driver, spec as sp
-def mk(R, r, hops, dfrac, adv=False, jit="L"):
-    nodes=[dict(name="n0", rate=R, dist=["det", round(0.2/R,6)], delay=None, sched="P", advance=False, jit=True)]
-    conns=[]
-    for i in range(1,hops+1):
-        nodes.append(dict(name=f"n{i}", rate=r, dist=["det", round(dfrac/r,6)], delay=None, sched="P", advance=adv and i==hops, jit=True))
-        conns.append(dict(dst=i, src=i-1, blocking=True, skip=False, jitter="L", window=1, dist=["det",0.0], delay=None))
-    conns.append(dict(dst=0, src=hops, blocking=False, skip=True, jitter=jit, window=1, dist=["det",0.0], delay=None))
-    spec=dict(nodes=nodes, conns=conns, sup=0, tie=False, open_loop=False)
-    return spec
+mk = sp.lookahead_chain
 for R,r in ((24,8),(30,10),(20,10),(16,16)):
   for hops in (2,3,4,5,6):
     for dfrac in (0.5,1.0):
